@@ -8,7 +8,8 @@
          The model translates the body of the template with `Props/C04d.toCmds` (generator scope of a
          FIRST template of a file: a fresh frame, counter 0; autoescape mode of the template, else of
          the namespace), prints the statements with `renderStmts` (indentation 1) and runs them with
-         `Spec/JsStmt.execStmts` from `opt_data` = the data, `output = ''`; the directive function
+         `Spec/JsStmt.execStmts` from `opt_data` = the data, `output = ''`; a `{call}` runs the callee's body the
+         same way (`calleeG`, calls nested at most 8 deep) on the data object the call builds; the directive function
          soy.$$escapeHtml is read as `htmlEscape ∘ ToString`, every other library function is `unspec`.
          answer: `OK <hex of output> <hex of the statements' text>` | `ERROR <hex text>` (a thrown
          TypeError) | `UNSPEC <hex text>` (outside the common subset, or out of fuel) | `OUTSIDE`
@@ -53,6 +54,27 @@ def findTemplate (name : Bytes) : List Cmd → Autoescape → Option (Block × A
 
 def sOutput : Bytes := b!"output"
 
+/-- the callee oracle of Spec/JsStmt for the compiled files: the generated function `name` — the statements of the
+    template's body (translated from a fresh scope; the names' counter does not matter to their meaning), run from
+    `opt_data` = the data object and `output = ''` — returns its output; `depth` bounds the nesting of calls -/
+def calleeG (fs : List SoyFile) (fuel : Nat) : Nat → Bytes → JVal → JOut
+  | 0, _, _ => .unspec
+  | depth + 1, name, .obj kvs =>
+    match fs.findSome? (fun f => findTemplate name f.body .unspecified) with
+    | none => .unspec
+    | some (.mk _ cmds, ae) =>
+      match toCmds ae sOutput cmds ⟨[[]], 0⟩ with
+      | none => .unspec
+      | some r =>
+        match execStmts libF (calleeG fs fuel depth) fuel r.1 ⟨kvs, none, [(sOutput, .str [])]⟩ with
+        | .ok e =>
+          (match e.locals.find? (·.1 == sOutput) with
+            | some (_, .str out) => .val (.str out)
+            | _ => .unspec)
+        | .error => .error
+        | .unspec => .unspec
+  | _ + 1, _, _ => .unspec
+
 def ops : List Op := [
   ("jssem", fun f => match f with
     | [_, files, fname, tname, dataS, fuelS] =>
@@ -67,8 +89,8 @@ def ops : List Op := [
             match toCmds ae sOutput cmds ⟨[[]], 0⟩ with
             | none => "OUTSIDE"
             | some r =>
-              let text := Bytes.toHexWire (printPieces (renderStmts 1 r.1))
-              match execStmts libF fuel r.1 ⟨optData, none, [(sOutput, .str [])]⟩ with
+              let text := Bytes.toHexWire (printPieces (renderStmts false 1 r.1))
+              match execStmts libF (calleeG fs fuel 8) fuel r.1 ⟨optData, none, [(sOutput, .str [])]⟩ with
               | .ok e =>
                 (match e.locals.find? (·.1 == sOutput) with
                   | some (_, .str out) => "OK " ++ Bytes.toHexWire out ++ " " ++ text
